@@ -216,6 +216,34 @@ func runC13(r *Run) {
 
 	r.checkPartition(P)
 	r.checkAnchoredRequest(P)
+	r.checkCompressWhole(P)
+}
+
+// checkCompressWhole: what the writer stores is the complete gzip stream of exactly the file content — written, then
+// closed (the close writes the last block and the trailer), both without error, and only then taken from the buffer.
+func (r *Run) checkCompressWhole(P string) {
+	if f := r.fn(P, pkgCompression+"/gzip", "Algorithm.Compress"); f != nil {
+		_, ok := r.requireSucc(P+".compress.whole", "if the stream is taken before a successful Close, or a write error is ignored, the stored file is a truncated gzip stream that no reader can decompress", f, core.Ctx{}, "",
+			"ok(Writer.Write(?w, $1))", "ok(Writer.Close(?w))", "cmp(<result> == Buffer.Bytes(_))")
+		if ok {
+			// order: the buffer is read after the writer was closed without error (a fact at the read, so that the close may
+			// sit in a helper or a function literal whose error is tested after the join)
+			ff := r.E.Facts(f, core.Ctx{})
+			reads := r.callsIn(f, "Buffer.Bytes")
+			good := len(reads) >= 1
+			for _, rd := range reads {
+				if !core.HasFact(ff.At(rd), "ok(Writer.Close(_))") {
+					good = false
+				}
+			}
+			r.R.Check(good, P+".compress.order", "typestate: the buffer is read only after the gzip writer has been closed", core.FuncName(f), r.where(f),
+				"gzip.Writer buffers: before Close the buffer lacks the final block and the CRC/size trailer", "Bytes() after a successful Close()", "a read of the buffer is not preceded, on every path, by a Close of the writer that returned no error")
+		}
+	}
+	if f := r.fn(P, pkgCompression, "Registry.Compress"); f != nil {
+		r.requireSucc(P+".compress.registry", "the registry must hand back what an algorithm that accepts the requested name produced (the reader selects by the same name), and only when that algorithm reported no error", f, core.Ctx{}, "",
+			"true(Algorithm.Accept(?a, $1))", "ok(Algorithm.Compress(?a, $2))", "cmp(<result> == Algorithm.Compress(?a, $2))")
+	}
 }
 
 // checkPartition: the batch parsing loop.
